@@ -29,6 +29,7 @@ import (
 	"time"
 
 	git "github.com/go-git/go-git/v6"
+	"github.com/go-git/go-git/v6/plumbing/object"
 	"github.com/go-git/go-git/v6/storage/filesystem"
 	"github.com/go-git/go-git/v6/verifsim/core"
 	"github.com/go-git/go-git/v6/verifsim/gen"
@@ -61,6 +62,8 @@ var filePaths = []string{
 	"x.log", "dir/y.log", "keep.log", "ign/f.txt", "dir/ign/g.txt", "dir/sub/t.tmp",
 	"a.txt/inner.txt", "z", "dir/sub", "newdir/n.txt",
 	".gitignore", "dir/.gitignore", "un/.gitignore",
+	// siblings that sort between "name" and "name/" (git orders a directory as name+"/")
+	"dir.txt", "z-old", "dir/sub.txt",
 }
 
 var dirPaths = []string{".", "dir", "dir/sub", "z", "z/y", "un", "un/deep", "ign", "dir/ign", "empty", "dir/empty2", "newdir", "a.txt"}
@@ -87,7 +90,7 @@ var addGlobs = []string{"*.txt", "dir/*", "*", "d*", "*/c.txt", "dir/*.log", "*.
 
 var rmGlobs = []string{"*.txt", "dir/*", "d*", "*/c.txt", "z/*", "*.log", "dir/s*", "dir", "a.txt", "z", "un*", "*.sh", "dir/sub/*", "nomatch*"}
 
-var mvTargets = append(append([]string{}, filePaths[:21]...), "dir", "newdir/moved.txt", "z/y/moved.txt", "moved.txt")
+var mvTargets = append(append([]string{}, filePaths[:21]...), "dir", "newdir/moved.txt", "z/y/moved.txt", "moved.txt", "dir.txt", "z-old", "dir/sub.txt")
 
 var userKinds = map[string]bool{"write": true, "delete": true, "chmod": true, "symlink": true, "mkdir": true}
 
@@ -127,7 +130,7 @@ func genPlan(r *core.Rand, tier string) any {
 		// ignore rules plus files they may cover, early in the history
 		p.Steps = append(p.Steps, Step{Kind: "write", A: 21 + r.Intn(3), B: r.Intn(96)})
 		for k := r.Range(1, 2); k > 0; k-- {
-			p.Steps = append(p.Steps, Step{Kind: "write", A: r.Pick2(9, 10, 11, 12, 13, 14, 15, 16, 7, 8), B: r.Intn(96)})
+			p.Steps = append(p.Steps, Step{Kind: "write", A: r.Pick2(9, 10, 11, 12, 13, 14, 15, 16, 7, 8, 24, 26), B: r.Intn(96)})
 		}
 	}
 	for len(p.Steps) < n {
@@ -881,11 +884,19 @@ func execPlan(t *testing.T, pa any) (out core.Outcome) {
 			case e != nil:
 				out.Fail(fmt.Sprintf("C28|%s|head-not-advanced|plain", op), "step %d: the returned commit %s cannot be read: %v", i, commitHash, e)
 			case c.TreeHash.String() != wantTree:
-				cls := "plain"
-				if len(statePresent(mx, pre, ig)) > 0 {
-					cls = statePresent(mx, pre, ig)[0]
+				// name the first entry in which the recorded tree differs
+				cls, where := "plain", ""
+				if tr, e := w.Env.Repo.TreeObject(c.TreeHash); e == nil {
+					tx := index{}
+					_ = tr.Files().ForEach(func(f *object.File) error {
+						tx[f.Name] = ient{mode: uint32(f.Mode), id: f.Hash.String()}
+						return nil
+					})
+					if _, dp, _, m := compareState(r.idx, wtree{}, tx, "", wtree{}, false); dp != "" {
+						cls, where = classOf(dp, false, mx, pre, ig, ""), " ("+strings.Replace(m, "index", "tree", 1)+")"
+					}
 				}
-				out.Fail(fmt.Sprintf("C28|%s|tree-id-differs|%s", op, cls), "step %d: commit %s records tree %s; git write-tree of the same index gives %s", i, commitHash[:8], c.TreeHash, wantTree)
+				out.Fail(fmt.Sprintf("C28|%s|tree-id-differs|%s", op, cls), "step %d: commit %s records tree %s; git write-tree of the same index gives %s%s", i, commitHash[:8], c.TreeHash, wantTree, where)
 			case curHead != commitHash:
 				out.Fail(fmt.Sprintf("C28|%s|head-not-advanced|plain", op), "step %d: branch is at %s after committing %s", i, curHead, commitHash)
 			case len(c.ParentHashes) != 1 || c.ParentHashes[0].String() != head:
@@ -999,7 +1010,7 @@ func TestCheck(t *testing.T) {
 		},
 		Real:           []string{"Worktree.Add/AddWithOptions/AddGlob", "Worktree.Remove/RemoveGlob", "Worktree.Move", "Worktree.Clean", "Worktree.Commit (autoAddModifiedAndDeleted, buildTreeHelper.BuildTree, updateHEAD)", "Worktree.Status", "gitignore", "index encoder/decoder", "storage/filesystem"},
 		Stub:           []string{"disk (simfs), manual clock", "thorough tier: real git 2.39 in a scratch repository as a second oracle for the model"},
-		Runs:           map[string]int{"quick": 160000, "thorough": 2000000},
+		Runs:           map[string]int{"quick": 120000, "thorough": 2000000},
 		NewPlan:        func() any { return &Plan{} },
 		Gen:            genPlan,
 		Exec:           execPlan,
